@@ -108,7 +108,7 @@ func copyBlock(v reflect.Value, block Block) error {
 			)
 		}
 
-		if vx.Type().AssignableTo(blockType) {
+		if vx.Type() == blockType {
 			return copyBlock(fv, x.(Block))
 		}
 
